@@ -79,6 +79,13 @@ type State struct {
 	decoders  map[*Value]*decoderState
 	bgCtx     *CtxObj
 	pruned    int
+	mapOrdersOff bool
+	forkSites []string
+	spec *specState
+	delays int
+	known map[[2]uint64]bool
+	cacheHits int
+	summarized int
 }
 
 type Event struct {
@@ -105,11 +112,37 @@ type Thread struct {
 }
 
 func (st *State) end(kind, format string, args ...interface{}) {
+	if st.spec != nil {
+		panic(specFail{"end:" + kind + ":" + fmt.Sprintf(format, args...)})
+	}
 	panic(pathEnd{kind: kind, msg: fmt.Sprintf(format, args...)})
 }
 
 func (st *State) abort(format string, args ...interface{}) {
-	st.end("abort", format, args...)
+	where := ""
+	if st.cur != nil && len(st.cur.stack) > 0 {
+		n := len(st.cur.stack)
+		lo := n - 4
+		if lo < 0 {
+			lo = 0
+		}
+		where = " [in " + strings.Join(st.cur.stack[lo:], " > ") + "]"
+	}
+	st.end("abort", format+where, args...)
+}
+
+// recordDecision logs a solver-dependent engine decision so that a replay of
+// the prefix takes the same route.
+func (st *State) recordDecision(compute func() int) int {
+	pos := len(st.decis)
+	if pos < len(st.prefix) {
+		d := st.prefix[pos]
+		st.decis = append(st.decis, d)
+		return d
+	}
+	d := compute()
+	st.decis = append(st.decis, d)
+	return d
 }
 
 // ---- decisions ------------------------------------------------------------
@@ -118,12 +151,15 @@ func (st *State) abort(format string, args ...interface{}) {
 // condition under which alternative i is possible.  It forks the path: the
 // first feasible alternative is followed now, the others are queued.
 func (st *State) choose(n int, guards []*Term, what string) int {
+	if st.spec != nil {
+		return st.specChoose(n, guards, what)
+	}
 	pos := len(st.decis)
 	if pos < len(st.prefix) {
 		d := st.prefix[pos]
 		st.decis = append(st.decis, d)
 		if guards != nil && guards[d] != nil {
-			st.solver.Assert(guards[d])
+			st.assertGuard(guards[d])
 		}
 		return d
 	}
@@ -163,12 +199,52 @@ func (st *State) choose(n int, guards []*Term, what string) int {
 		p := append(append([]int{}, st.decis...), alt)
 		st.forks = append(st.forks, p)
 	}
+	if len(feas) > 1 {
+		st.forkSites = append(st.forkSites, what)
+	}
 	d := feas[0]
 	st.decis = append(st.decis, d)
 	if guards != nil && guards[d] != nil {
-		st.solver.Assert(guards[d])
+		st.assertGuard(guards[d])
 	}
 	return d
+}
+
+// learn records the truth of asserted literals for the syntactic cache.
+func (st *State) learn(g *Term, val bool) {
+	if g == nil || g.IsConst() {
+		return
+	}
+	switch {
+	case g.op == "not":
+		st.learn(g.args[0], !val)
+		return
+	case g.op == "and" && val:
+		st.learn(g.args[0], true)
+		st.learn(g.args[1], true)
+		return
+	case g.op == "or" && !val:
+		st.learn(g.args[0], false)
+		st.learn(g.args[1], false)
+		return
+	}
+	a, b := g.hash()
+	st.known[[2]uint64{a, b}] = val
+}
+
+func (st *State) lookupKnown(g *Term) (bool, bool) {
+	if g.op == "not" {
+		v, ok := st.lookupKnown(g.args[0])
+		return !v, ok
+	}
+	a, b := g.hash()
+	v, ok := st.known[[2]uint64{a, b}]
+	return v, ok
+}
+
+func (st *State) assertGuard(g *Term) {
+	st.solver.Assert(g)
+	st.learn(g, true)
 }
 
 // guardsExhaustive: for plain two-way branches the two guards are c and !c, so
@@ -180,6 +256,12 @@ func (st *State) branch(c *Term, what string) bool {
 	if c.IsConst() {
 		return c.Bool()
 	}
+	if st.spec == nil {
+		if v, ok := st.lookupKnown(c); ok {
+			st.cacheHits++
+			return v
+		}
+	}
 	d := st.choose(2, []*Term{c, mkNot(c)}, "br:"+what)
 	return d == 0
 }
@@ -189,6 +271,7 @@ func (st *State) concretize(t *Term, max int, what string) uint64 {
 	if t.IsConst() {
 		return t.c
 	}
+	st.specDeny("concretize")
 	excl := tTrue
 	for i := 0; i < max; i++ {
 		// find a value under the exclusions so far
@@ -250,6 +333,7 @@ func (st *State) concretize(t *Term, max int, what string) uint64 {
 // ---- nondet / assume / assert ----------------------------------------------
 
 func (st *State) freshVar(tag string, s Sort) *Term {
+	st.specDeny("fresh variable")
 	k := st.tagCount[tag]
 	st.tagCount[tag] = k + 1
 	name := fmt.Sprintf("n!%s!%d", sanitize(tag), k)
@@ -271,6 +355,7 @@ func sanitize(s string) string {
 }
 
 func (st *State) assume(c *Term) {
+	st.specDeny("assume")
 	st.assumes++
 	if c.IsConst() {
 		if !c.Bool() {
@@ -287,11 +372,12 @@ func (st *State) assume(c *Term) {
 			st.eng.noteUnknown(st.harness, "assume")
 		}
 	}
-	st.solver.Assert(c)
+	st.assertGuard(c)
 }
 
 // check is the assertion primitive: is NOT c satisfiable on this path?
 func (st *State) check(c *Term, what string) {
+	st.specDeny("assert")
 	st.asserts++
 	if c.IsConst() && c.Bool() {
 		st.eng.countObligation(st.harness, true)
@@ -386,6 +472,25 @@ func (st *State) anyOtherEnabled(self *Thread) bool {
 	return false
 }
 
+// schedChoose picks one of n runnable candidates.  Candidate 0 is the default
+// of the deterministic scheduler (lowest thread id first); every other pick
+// costs one "delay".  With the delay budget used up the default is taken
+// (delay-bounded scheduling).
+func (st *State) schedChoose(n int, what string) int {
+	if n <= 1 {
+		return 0
+	}
+	if st.delays >= st.eng.cfg.Delays {
+		return 0
+	}
+	d := st.choose(n, nil, what)
+	st.schedLog = append(st.schedLog, d)
+	if d > 0 {
+		st.delays++
+	}
+	return d
+}
+
 // switchTo hands the baton to target and parks the current thread.
 func (th *Thread) switchTo(target *Thread) {
 	st := th.st
@@ -404,6 +509,7 @@ func (th *Thread) switchTo(target *Thread) {
 // yield is a scheduling point at which the current thread could be preempted.
 func (th *Thread) yield(what string) {
 	st := th.st
+	st.specDeny("scheduling point")
 	if len(st.threads) == 1 {
 		return
 	}
@@ -414,8 +520,7 @@ func (th *Thread) yield(what string) {
 	if len(others) == 0 {
 		return
 	}
-	d := st.choose(len(others)+1, nil, "sched:"+what)
-	st.schedLog = append(st.schedLog, d)
+	d := st.schedChoose(len(others)+1, "sched:"+what)
 	if d == 0 {
 		return
 	}
@@ -426,6 +531,9 @@ func (th *Thread) yield(what string) {
 // block parks the thread until cond() is false.
 func (th *Thread) block(cond func() bool, what string) {
 	st := th.st
+	if cond() {
+		st.specDeny("blocking")
+	}
 	for cond() {
 		th.blocked = cond
 		th.what = what
@@ -435,11 +543,7 @@ func (th *Thread) block(cond func() bool, what string) {
 			th.blocked = nil
 			st.deadlock(th, what)
 		}
-		d := 0
-		if len(others) > 1 {
-			d = st.choose(len(others), nil, "sched-block:"+what)
-			st.schedLog = append(st.schedLog, d)
-		}
+		d := st.schedChoose(len(others), "sched-block:"+what)
 		th.switchTo(others[d])
 		th.blocked = nil
 	}
@@ -464,11 +568,7 @@ func (th *Thread) quiesceWait() {
 		th.blocked = func() bool { return st.anyOtherEnabled(th) }
 		th.what = "quiesce"
 		others := st.enabled(th)
-		d := 0
-		if len(others) > 1 {
-			d = st.choose(len(others), nil, "sched-q")
-			st.schedLog = append(st.schedLog, d)
-		}
+		d := st.schedChoose(len(others), "sched-q")
 		th.switchTo(others[d])
 		th.blocked = nil
 	}
@@ -549,8 +649,7 @@ func (st *State) spawn(name string, body func(th *Thread)) *Thread {
 							}
 						}
 					}()
-					d = st.choose(len(others), nil, "sched-exit")
-					st.schedLog = append(st.schedLog, d)
+					d = st.schedChoose(len(others), "sched-exit")
 				}()
 			}
 			if d < 0 {
